@@ -15,6 +15,22 @@ def H(name, tier="q", bounds=""):
 
 
 PROPS = {
+    "C02": {
+        "m": "specs.c02",
+        "k": [],
+        "bounds": {"all": "Engine M: ISODateTimeWithinLimits and IsoDate::new_with_overflow (both overflow modes) for every year in -300000..=300000, "
+                          "every u8 month/day and every wall-clock time; year-month limits for every i32 year; EpochNanoseconds::try_from for every i128; "
+                          "Instant::from_epoch_milliseconds for every i64"},
+        "outside": "arithmetic/rounding/conversion paths (add, subtract, round, until, to_* conversions) near the limits: Kani boundary harnesses, not built yet",
+    },
+    "C03": {
+        "m": "specs.c03",
+        "k": [],
+        "bounds": {"all": "Engine M (debug semantics: every overflow/division/index assert, assert!, unreachable!, unwrap is an obligation): "
+                          "IsoDate::new_with_overflow for every i32 year and u8 month/day; IsoDateTime::from_epoch_nanos for every instant in range and "
+                          "|offset| <= 1e15 ns; Unit::to_maximum_rounding_increment for every Unit; plus the panic obligations of every other Engine-M job (C01, C02, C07)"},
+        "outside": "string parsers, time-zone providers, float-based duration code and temporal_capi: Kani harnesses, not built yet",
+    },
     "C07": {
         "m": "specs.c07",
         "k": [],
